@@ -358,6 +358,44 @@ def run(ctx):
                      {"oracle": "pair", "expect": "differ", "a": pk(a), "b": pk(b), "a_dump": show(a), "b_dump": show(b), "edit": kind},
                      key=core.digest({"p": ID, "a": repr(ka), "b": repr(kb)}))
 
+    # ---- oracle C': the hash follows an edit made IN PLACE on a tree that was hashed before (no identity-keyed cache),
+    #      and goes back when the edit is undone
+    import ast as _ast
+    from func_adl.ast.ast_hash import calc_ast_hash as _calc
+    for src in hc.EXPR_CORPUS[:40]:
+        try:
+            t = _ast.parse(src, mode="eval").body
+        except SyntaxError:
+            continue
+        names = [n for n in _ast.walk(t) if isinstance(n, _ast.Name)]
+        consts = [n for n in _ast.walk(t) if isinstance(n, _ast.Constant) and isinstance(n.value, (int, str)) and not isinstance(n.value, bool)]
+        if not names and not consts:
+            continue
+        ctx.evaluations += 1
+        try:
+            h0 = _calc(t)
+            if names:
+                node, old_v = names[0], names[0].id
+                node.id = old_v + "_x"
+            else:
+                node, old_v = consts[0], consts[0].value
+                node.value = (old_v + 1) if isinstance(old_v, int) else old_v + "x"
+            h1 = _calc(t)
+            fresh = _calc(_ast.parse(_ast.unparse(t), mode="eval").body)
+            if names:
+                node.id = old_v
+            else:
+                node.value = old_v
+            h2 = _calc(t)
+        except ValueError:
+            continue
+        ctx.count("edit", "in-place")
+        if h1 == h0 or h1 != fresh or h2 != h0:
+            ctx.fail("failing-input", "hash of a tree edited in place after it was hashed once: before %s, after the edit %s (a freshly built "
+                     "copy of the edited tree gives %s), after undoing %s: %r" % (h0, h1, fresh, h2, src),
+                     {"oracle": "in-place-edit", "src": src}, key=core.digest({"p": ID, "inplace": src}))
+            break
+
     # ---- oracle D: formatting variants of the same source
     for src in hc.EXPR_CORPUS:
         base = ast.parse(src, mode="eval").body
